@@ -151,16 +151,29 @@ func (s *storage) StatBlobs(ctx context.Context, blobs []blob.Ref, fn func(blob.
 }
 
 func (s *storage) ReceiveBlob(ctx context.Context, plainBR blob.Ref, source io.Reader) (sb blob.SizedRef, err error) {
+	hash := plainBR.Hash()
+	if hash == nil {
+		return sb, fmt.Errorf("encrypt: unsupported blobref hash for %v", plainBR)
+	}
+
 	// Aggressively check for duplicates since there's nothing else to ensure we don't store blobs twice
 	if plainSize, _, err := s.fetchMeta(ctx, plainBR); err == nil {
 		log.Println("encrypt: duplicated blob received", plainBR)
+		// Still read and verify what was sent: bytes that do not hash to
+		// the ref must not be acknowledged, and callers that verify the
+		// stream themselves only do so once it has been read to the end.
+		if _, err := io.Copy(hash, source); err != nil {
+			return sb, err
+		}
+		if !plainBR.HashMatches(hash) {
+			return sb, blobserver.ErrCorruptBlob
+		}
 		return blob.SizedRef{Ref: plainBR, Size: uint32(plainSize)}, nil
 	}
 
 	plainBytes := pools.BytesBuffer()
 	defer pools.PutBuffer(plainBytes)
 
-	hash := plainBR.Hash()
 	plainSize, err := io.Copy(io.MultiWriter(plainBytes, hash), source)
 	if err != nil {
 		return sb, err
